@@ -152,3 +152,63 @@ Example C18_nonvacuous_collect :
   | None => False
   end.
 Proof. vm_compute. reflexivity. Qed.
+
+(* ---- the tie to the source of the message parsers, re-checked by the kernel on every run ------------
+   Gen/ErrorPatterns.v is re-generated from typedpy/errors.py (harness/genmods/regex_src.py): the TEXT of
+   the four regular expressions, parsed into the regex AST of Errors/Regex.v (a backtracking matcher
+   with Python's re.match semantics, validated against CPython by harness/regexcorr.py).  For EVERY
+   message string, what the regexes of the source match NOW, with which groups, is what the hand-written
+   parsers of Errors/Parse.v (on which the theorems above are proved) compute. *)
+From TP Require Import Errors.Regex Gen.ErrorPatterns Errors.RegexProofs.
+
+Theorem C18_src_pattern1 : forall m,
+  re_match pat_validation_1 m =
+  match take_field m with
+  | Some (f, r) => match p1 r with
+                   | Some (v, p) => RxMatch [Some f; Some v; Some p]
+                   | None => RxNoMatch
+                   end
+  | None => RxNoMatch
+  end.
+Proof. exact regex_pattern1. Qed.
+
+Theorem C18_src_pattern2 : forall m,
+  re_match pat_validation_2 m =
+  match take_field m with
+  | Some (f, r) => match p2 r with
+                   | Some (p, v) => RxMatch [Some f; Some p; Some v]
+                   | None => RxNoMatch
+                   end
+  | None => RxNoMatch
+  end.
+Proof. exact regex_pattern2. Qed.
+
+Theorem C18_src_pattern3 : forall m,
+  re_match pat_validation_3 m =
+  match take_field m with
+  | Some (f, r) => match p3 r with
+                   | Some p => RxMatch [Some f; Some p]
+                   | None => RxNoMatch
+                   end
+  | None => RxNoMatch
+  end.
+Proof. exact regex_pattern3. Qed.
+
+Theorem C18_src_expected_class : forall p,
+  re_match pat_expected_class p =
+  match class_of_expected p with Some cn => RxMatch [Some cn] | None => RxNoMatch end.
+Proof. exact regex_expected_class. Qed.
+
+Theorem C18_src_display_table : display_type_by_type_src = display_type_by_type.
+Proof. exact regex_display_table. Qed.
+
+(* errors.py written through the four re_match calls and the generated table IS the model's parse_msg *)
+Theorem C18_src_parse_msg : forall collect m, parse_msg_re collect m = parse_msg collect m.
+Proof. exact regex_parse_msg. Qed.
+
+Print Assumptions C18_src_pattern1.
+Print Assumptions C18_src_pattern2.
+Print Assumptions C18_src_pattern3.
+Print Assumptions C18_src_expected_class.
+Print Assumptions C18_src_display_table.
+Print Assumptions C18_src_parse_msg.
